@@ -1,14 +1,13 @@
 #!/bin/sh
-# muttest.sh <seeded-dir> <check-id>... : apply the seeded change to /repo, run the quick checks, undo the change.
-# prints one line per check: <seeded> <check> exit=<code> and the VIOLATION lines
+# muttest.sh <seeded-dir> <check-id>... : apply the seeded change to a scratch worktree of /repo (never to /repo itself),
+# run the quick checks against it (VERIF_REPO), remove the worktree.
 D=$1; shift
-cd /repo || exit 2
-git diff --quiet || { echo "repo dirty"; exit 2; }
-git apply "$D/patch.diff" || { echo "$D: patch does not apply"; exit 2; }
+W=/tmp/wt/mut_$(basename $D)_$$
+git -C /repo worktree add -q --detach $W HEAD || exit 2
+git -C $W apply "$D/patch.diff" || { echo "$D: patch does not apply"; git -C /repo worktree remove --force $W; exit 2; }
 for c in "$@"; do
-  out=$(cd /verif && timeout 1500 ./vchk $c quick 2>&1); code=$?
+  out=$(cd /verif && VERIF_REPO=$W VERIF_OUT=/tmp/wt/out_$$ timeout 1800 ./vchk $c quick 2>&1); code=$?
   echo "MUT $(basename $D) check=$c exit=$code"
   echo "$out" | grep -E "^(VIOLATION|KNOWN-FINDING|HARNESS-PROBLEM|  obligation)" | cut -c1-400 | head -6
 done
-git -C /repo checkout -- . 
-git -C /repo status --short | head -3
+git -C /repo worktree remove --force $W
